@@ -149,8 +149,31 @@ def _mk_hostile(kind, exc_code):
     raise ValueError(kind)
 
 
+HSUB_BASES = {'dict': (dict, lambda: {'a': 1}), 'list': (list, lambda: [1, 2]), 'tuple': (tuple, lambda: (1, 2)),
+              'set': (set, lambda: {1}), 'str': (str, lambda: 'txt'), 'int': (int, lambda: 5),
+              'frozenset': (frozenset, lambda: frozenset([1])), 'exc': (ValueError, lambda: (1,)),
+              'odict': (collections.OrderedDict, lambda: {'a': 1}), 'obj': (object, lambda: None)}
+HSUB_DUNDERS = ['__len__', '__iter__', '__str__', '__repr__', '__getitem__', 'keys', 'items', 'values', '__bool__',
+                '__contains__', '__sizeof__', '__format__', '__dir__', '__reduce__', '__getattr__']
+
+
+def _mk_hsub(base, dunder, exc_code):
+    exc = _exc(exc_code)
+    cls, init = HSUB_BASES[base]
+
+    def bad(self, *a, **k):
+        raise exc('%s.%s failed' % (base, dunder))
+    T = type('Bad_%s_%s' % (base, dunder.strip('_')), (cls,), {dunder: bad})
+    arg = init()
+    if base == 'obj':
+        return T()
+    if base == 'exc':
+        return T(*arg)
+    return T(arg)
+
+
 HOSTILE_KINDS = ['badstr', 'badrepr', 'badlen', 'badgetattr', 'badgetattribute', 'baddict', 'badclass', 'badhash',
-                 'badstr_exc', 'badkeys', 'baditer', 'dictless_dunder']
+                 'badstr_exc', 'badkeys', 'baditer', 'dictless_dunder', 'hsub', 'hsub', 'hsub']
 # values whose str()/traversal legitimately cannot be rendered: only a placeholder is required for them
 OFFENDING_KINDS = set(HOSTILE_KINDS) | {'surrogate'}
 
@@ -314,6 +337,8 @@ def _build_leaf(node):
         return slice(1, 2)
     if k == 'mappingproxy':
         return types.MappingProxyType({'mp': 1})
+    if k == 'hsub':
+        return _mk_hsub(node.get('base', 'dict'), node.get('dunder', '__len__'), node.get('exc', 'E'))
     if k in HOSTILE_KINDS:
         return _mk_hostile(k, node.get('exc', 'E'))
     raise ValueError('unknown kind %r' % (k,))
@@ -425,6 +450,10 @@ def node_strategy(kinds, max_items=5, str_keys_only=False, max_ref=40):
         if k == 'obj':
             return st.fixed_dictionaries({'k': st.just(k), 'attrs': st.lists(
                 st.tuples(_attr_names, st.integers(0, max_ref)).map(list), max_size=max_items)})
+        if k == 'hsub':
+            return st.fixed_dictionaries({'k': st.just(k), 'exc': st.sampled_from(['E', 'E', 'B']),
+                                          'base': st.sampled_from(sorted(HSUB_BASES)),
+                                          'dunder': st.sampled_from(HSUB_DUNDERS)})
         if k in HOSTILE_KINDS:
             return st.fixed_dictionaries({'k': st.just(k), 'exc': st.sampled_from(['E', 'E', 'B'])})
         return st.fixed_dictionaries({'k': st.just(k), 'v': st.integers(0, 9)})
